@@ -362,6 +362,7 @@ pub fn step(stream: &[u8], visible: usize, hl: usize, rem: usize, c: usize, acts
                 vassert!(now == used, "C05|poll.step.consumed|bytes consumed when the result is produced differ from one uninterrupted read");
                 if let Spec::Done(t, _) = got {
                     vassert!(t == now, "C05|poll.total_vs_consumed|reported total size differs from the bytes consumed");
+                    vassert!(t == now && rd.max_end_requested <= now, "C08|poll.framing|the poll decoder consumed or requested bytes of the following packet, or reports a size other than what it consumed");
                 }
                 vcover!(true, "result");
             }
@@ -428,6 +429,36 @@ stream_scn!(zero_rem, 0, [M_ALL, 0], 0, 1);
 stream_scn!(overlong_varint, 0, [M_ALL, 0x80, 0x80, 0x80, 0x80, 0x01], 0, 1);
 stream_scn!(rem130_hl3_prefix, 2, [M_ALL, 0x82, 0x01], 130, 0);
 
+/// C08 clean end: after the last packet every front-end reports end of input at a clean boundary
+pub fn clean_end(s: &mut Src) {
+    let _ = s.u8();
+    let empty: [u8; 0] = [];
+    let acts = [Act::Eof];
+    let mut st = St::default();
+    let mut rd = Script { data: &empty, pos: 0, acts: &acts, ai: 0, pending_returned: false, max_end_requested: 0 };
+    let r = {
+        let mut fut = mp::GenericPollPacket::new(&mut st, &mut rd);
+        let mut cx = noop_cx();
+        Pin::new(&mut fut).poll(&mut cx)
+    };
+    match r {
+        Poll::Ready(res) => {
+            vassert!(classify(res) == Spec::Eof, "C08|clean_end.poll|the poll decoder does not report eof on an exhausted stream");
+        }
+        Poll::Pending => {
+            vassert!(false, "C08|clean_end.pending|Pending on an exhausted stream");
+        }
+    }
+    let b3 = crate::fe::v3::blocking(&empty);
+    let b5 = crate::fe::v5::blocking(&empty);
+    vassert!(matches!(&b3, Ok(None)) && matches!(&b5, Ok(None)), "C08|clean_end.blocking|the blocking decoder does not report 'incomplete' on an empty remainder");
+    let (a3, n3) = crate::fe::v3::async_all(&empty);
+    let (a5, n5) = crate::fe::v5::async_all(&empty);
+    vassert!(matches!(&a3, Err(e) if e.is_eof()) && matches!(&a5, Err(e) if e.is_eof()) && n3 == 0 && n5 == 0, "C08|clean_end.async|the async decoder does not report eof on an empty remainder");
+    vcover!(true, "clean end");
+    done(st); done(b3); done(b5); done(a3); done(a5);
+}
+
 /// probe: whole stream in one poll, concrete header bytes, symbolic body
 pub fn one_shot_rem3(s: &mut Src) {
     let b: [u8; 3] = s.bytes();
@@ -459,6 +490,9 @@ scenarios! {
     #[kani::unwind(12)]
     #[kani::stub(<mqtt_proto_sync::Error as std::convert::From<std::io::Error>>::from, crate::model::from_io_kind_stub)]
     c05_one_shot_rem3 [3] => one_shot_rem3;
+    #[kani::unwind(8)]
+    #[kani::stub(<mqtt_proto_sync::Error as std::convert::From<std::io::Error>>::from, crate::model::from_io_kind_stub)]
+    c08_clean_end [1] => clean_end;
     #[kani::unwind(12)]
     #[kani::stub(<mqtt_proto_sync::Error as std::convert::From<std::io::Error>>::from, crate::model::from_io_kind_stub)]
     c05_steps_all_rem1 [1] => all_rem1;
